@@ -35,7 +35,8 @@ RULE = (
     "non-zero result and (batch) >= 2 distinct batch sizes compared; distinct = (relation, kernel, upsampling, mask class, aberration class)"
 )
 ASSUMPTIONS = [
-    "the library computes in float32/complex64: residuals are judged relative to max|corrected_stack| (sums of images: max of that and max|corrected_bf|) with bound 5e-5 (measured floors: see worst_residuals)",
+    "the library computes in float32/complex64: residuals are judged relative to max|corrected_stack| (sums of images: max of that and max|corrected_bf|) with bounds 2e-4 (batch), 5e-4 (linearity), 2e-4 (recombination), 1e-3 (closed forms); measured floors: see worst_residuals",
+    "generated stacks keep max|x| / max|x - mean_i| <= 12: the float32 FFT is taken before the DC is removed, so the floor relative to the mean-free result grows with that ratio",
     "the i-th image of the stack belongs to the i-th True pixel (row-major) of the corner-centred construction mask; with crop_bf_mask=True the construction mask is symmetric about DC so that cropping keeps DC at [0,0]",
     "aperture weights W = sum over the mask of the squared soft-edged aperture on the passively rotated detector grid (the weight the property divides by); recombination and closed forms are judged with soft_edges=True",
     "recombination is claimed for the single-pass kernels only (ssb, prlx, icom); obf/mf sub-mask results are observed as a negative control, not judged",
@@ -44,11 +45,17 @@ ASSUMPTIONS = [
     "gc.freeze() is called once per worker after import so that the two gc.collect() calls inside reconstruct() cost ~1 ms instead of ~130 ms; it does not change what is computed",
 ]
 BUDGET = {"quick": {"soft_s": 100}, "thorough": {"soft_s": 520}}
-MIN_EVALUATIONS = {"quick": 800, "thorough": 10000}
+MIN_EVALUATIONS = {"quick": 1500, "thorough": 10000}
 REQUIRED_COUNTERS = ["eval:batch_invariance", "eval:linearity", "eval:recombination", "eval:closed_form_zero_aberration", "eval:closed_form_defocus_astigmatism"]
 EXHAUSTIVE = {"quick": False, "thorough": False}
 
-TOL = 5e-5  # relative (see ASSUMPTIONS)
+# relative bounds (see ASSUMPTIONS); measured floors over the thorough tier in worst_residuals. The float32 floor grows with
+# max|x| / contrast of the stack (the DC is removed after a float32 FFT) and with the largest translation phase.
+TOL_BATCH = 2e-4
+TOL_LIN = 5e-4
+TOL_RECOMB = 2e-4
+TOL_CLOSED = 1e-3
+RHO_MAX = 12.0  # generated stacks keep max|x| / max|x - mean_i| <= 12 (vBF stacks have unit mean and a few % contrast)
 
 KERNELS = {
     "ssb": ["ssb", "single-sideband", "acbf", "aberration-corrected-bright-field", "SSB", "Single-Sideband"],
@@ -67,7 +74,7 @@ ENERGIES = [60e3, 80e3, 200e3, 300e3]
 def plan(tier, seed):
     rng = np.random.default_rng([seed, 4, 777])
     specs = []
-    reps = {"quick": {"batch": 12, "linear": 40, "recombine": 60, "closed_zero": 120, "closed_aberr": 360}, "thorough": {"batch": 150, "linear": 600, "recombine": 900, "closed_zero": 1500, "closed_aberr": 4500}}[tier]
+    reps = {"quick": {"batch": 20, "linear": 70, "recombine": 100, "closed_zero": 200, "closed_aberr": 600}, "thorough": {"batch": 150, "linear": 600, "recombine": 900, "closed_zero": 1500, "closed_aberr": 4500}}[tier]
 
     def common(kernel):
         names = KERNELS[kernel]
@@ -160,11 +167,19 @@ def _stack(rng, family, nbf, sx, sy):
             a, b = int(rng.integers(0, 4)), int(rng.integers(0, 4))
             x = x + rng.uniform(0.02, 0.2) * np.cos(2 * np.pi * (a * u + b * v) + rng.uniform(0, 6.28, size=(nbf, 1, 1)))
         x = x * rng.uniform(0.8, 1.2, size=(nbf, 1, 1))
+        # broadband component: a stack made of a few +-q pairs can cancel completely in the real part taken by the
+        # library (e.g. phase flipping with odd aberrations is anti-symmetric in q) and leave only rounding noise
+        x = x + rng.normal(size=x.shape) * 0.04
     else:
         x = np.ones((nbf, sx, sy)) * rng.uniform(0.5, 2.0)
         for i in range(nbf):
             for _ in range(3):
                 x[i, int(rng.integers(sx)), int(rng.integers(sy))] += rng.uniform(-0.4, 1.5)
+    mean = x.mean(axis=(1, 2), keepdims=True)
+    contrast = float(np.max(np.abs(x - mean)))
+    rho = float(np.max(np.abs(x))) / max(contrast, 1e-300)
+    if rho > 0.8 * RHO_MAX:
+        x = mean + (x - mean) * (rho / (0.8 * RHO_MAX)) * 1.25
     return x
 
 
@@ -266,7 +281,8 @@ def _scene(rng, spec, ctx):
     if spec["kernel"] == "mf" and rng.random() < 0.5:
         sc.kw["matched_filter_norm_epsilon"] = float(10 ** rng.uniform(-3, 0))
     if spec["kernel"] == "prlx":
-        sc.kw["parallax_flip_phase"] = False if spec["rel"].startswith("closed") else bool(rng.random() < 0.5)
+        # sign(sin(chi)) is identically 0 without aberrations: flipping then returns the zero image (trivial)
+        sc.kw["parallax_flip_phase"] = False if (spec["rel"].startswith("closed") or spec["aberr"] == "none") else bool(rng.random() < 0.5)
     sc.kw["deconvolution_kernel"] = spec["name"]
     sc.kw["upsampling_factor"] = spec["up"] if (spec["up"] > 1 or rng.random() < 0.5) else None
     sc.kw["verbose"] = False
@@ -294,6 +310,21 @@ def _recon(dp, sc, bf_mask=None, batch=None):
 
 def _m(x):
     return float(np.max(np.abs(x))) if np.size(x) else 0.0
+
+
+def _natural(dp, sc, bf_mask, st, bf):
+    """Magnitude the float32 rounding noise scales with: the Butterworth envelope (<= 1) is applied after the
+    FFTs and kernel factors, so a filter that removes (nearly) all signal leaves a result far below the noise of
+    its un-filtered counterpart. Returns (max|stack|, max|bf|) of the larger of the filtered and un-filtered runs."""
+    if not any(k.startswith("q_") for k in sc.kw):
+        return _m(st), _m(bf)
+    kw = sc.kw
+    sc.kw = {k: v for k, v in kw.items() if not k.startswith("q_")}
+    try:
+        st2, bf2 = _recon(dp, sc, bf_mask, None)
+    finally:
+        sc.kw = kw
+    return max(_m(st), _m(st2)), max(_m(bf), _m(bf2))
 
 
 def _lib_mask(dp):
@@ -339,7 +370,7 @@ def run_case(spec, idx, ctx):
         sub = _pick_submask(rng, M, spec["submask"])
         n = sc.nbf if sub is None else int(sub.sum())
         st0, bf0 = _recon(dp, sc, sub, None)
-        scale = _m(st0)
+        scale = _natural(dp, sc, sub, st0, bf0)[0]
         sizes = _batch_sizes(ctx.tier, n, rng)
         worst, nb = 0.0, 0
         if scale > 0:
@@ -350,7 +381,7 @@ def run_case(spec, idx, ctx):
                 res = _m(st - st0) / scale
                 worst = max(worst, res)
                 nb += 1
-                ctx.close(res, TOL, "batch_invariance", lambda: "corrected_stack differs between max_batch_size=%d and the un-batched run (num_bf=%d)" % (b, n), **_fields(spec, sc, batch_class="1" if b == 1 else "n" if b == n else "gt_n" if b > n else "mid"))
+                ctx.close(res, TOL_BATCH, "batch_invariance", lambda: "corrected_stack differs between max_batch_size=%d and the un-batched run (num_bf=%d)" % (b, n), **_fields(spec, sc, batch_class="1" if b == 1 else "n" if b == n else "gt_n" if b > n else "mid"))
         else:
             ctx.count("note:zero_result")
         ctx.nontrivial(sig, var > 0 and n >= 5 and scale > 0 and nb >= 2)
@@ -364,12 +395,13 @@ def run_case(spec, idx, ctx):
         X32 = stack32.astype(np.float64)
         Y32 = np.asarray(Y, dtype=np.float32).astype(np.float64)
         bsz = [None, int(rng.integers(1, sc.nbf + 1))]
-        rx, _ = _recon(dp, sc, sub, bsz[int(rng.integers(2))])
-        ry, _ = _recon(_build(ctx, sc, Y32), sc, sub, bsz[int(rng.integers(2))])
+        rx, bx = _recon(dp, sc, sub, bsz[int(rng.integers(2))])
+        dpy = _build(ctx, sc, Y32)
+        ry, by = _recon(dpy, sc, sub, bsz[int(rng.integers(2))])
         rz, _ = _recon(_build(ctx, sc, a * X32 + b * Y32), sc, sub, bsz[int(rng.integers(2))])
-        scale = max(_m(rx) * abs(a), _m(ry) * abs(b), _m(rz))
+        scale = max(_natural(dp, sc, sub, rx, bx)[0] * abs(a), _natural(dpy, sc, sub, ry, by)[0] * abs(b), _m(rz))
         if scale > 0:
-            ctx.close(_m(rz - (a * rx + b * ry)) / scale, TOL, "linearity", lambda: "R(aX+bY) != aR(X)+bR(Y) (a=%.3f b=%.3f)" % (a, b), **_fields(spec, sc))
+            ctx.close(_m(rz - (a * rx + b * ry)) / scale, TOL_LIN, "linearity", lambda: "R(aX+bY) != aR(X)+bR(Y) (a=%.3f b=%.3f)" % (a, b), **_fields(spec, sc))
         else:
             ctx.count("note:zero_result")
         ctx.nontrivial(sig, var > 0 and sc.nbf >= 5 and scale > 0)
@@ -399,14 +431,14 @@ def run_case(spec, idx, ctx):
         stM, bfM = _recon(dp, sc, outer_arg, bs(outer))
         stA, bfA = _recon(dp, sc, A, bs(A))
         stB, bfB = _recon(dp, sc, B, bs(B))
-        scale = max(WM * max(_m(stM), _m(bfM)), WA * _m(stA), WB * _m(stB))
+        scale = max(WM * max(_natural(dp, sc, outer_arg, stM, bfM)), WA * _natural(dp, sc, A, stA, bfA)[0], WB * _natural(dp, sc, B, stB, bfB)[0])
         judged = spec["kernel"] in SINGLE_PASS
         if scale > 0:
             res = _m(WA * bfA + WB * bfB - WM * bfM) / scale
             if judged:
-                ctx.close(res, TOL, "recombination", lambda: "W_A R_A + W_B R_B != W R (W_A=%.4f W_B=%.4f W=%.4f)" % (WA, WB, WM), **_fields(spec, sc, outer=spec["outer"]))
+                ctx.close(res, TOL_RECOMB, "recombination", lambda: "W_A R_A + W_B R_B != W R (W_A=%.4f W_B=%.4f W=%.4f)" % (WA, WB, WM), **_fields(spec, sc, outer=spec["outer"]))
             else:
-                ctx.count("control:two_pass_recombination_differs" if res > TOL else "control:two_pass_recombination_equal")
+                ctx.count("control:two_pass_recombination_differs" if res > TOL_RECOMB else "control:two_pass_recombination_equal")
                 obs["control_residual"] = res
         else:
             ctx.count("note:zero_result")
@@ -441,7 +473,7 @@ def run_case(spec, idx, ctx):
             n_bf, _ = ref.parallax_closed_form(stack32, sub_index, kxi, kyi, shifts, sc.ds, spec["up"], float(n))
             return "corrected_bf != closed form (W=%.4f num_bf=%d; residual with opposite shift sign %.2e, with W:=num_bf %.2e)" % (Wt, n, _m(bf - alt_bf) / scale, _m(bf - n_bf) / scale)
 
-        ctx.close(res, TOL, mech, detail, **_fields(spec, sc))
+        ctx.close(res, TOL_CLOSED, mech, detail, **_fields(spec, sc))
         if rel == "closed_aberr":
             # the oracle discriminates: the opposite translation sign must NOT fit
             alt_bf, _ = ref.parallax_closed_form(stack32, sub_index, kxi, kyi, (-shifts[0], -shifts[1]), sc.ds, spec["up"], Wt)
@@ -449,3 +481,27 @@ def run_case(spec, idx, ctx):
     maxshift_px = float(np.max(np.hypot(shifts[0] / sc.ds[0], shifts[1] / sc.ds[1]))) if n else 0.0
     ctx.nontrivial(sig, var > 0 and n >= 5 and scale > 0 and (rel == "closed_zero" or maxshift_px > 0.2))
     ctx.observe(W=Wt, n_used=n, max_shift_px=maxshift_px, scale=scale, **obs)
+
+
+def summarize(all_cases, counters, extras):
+    import collections
+    import json
+
+    per = collections.Counter()
+    names = set()
+    for c in all_cases:
+        if c.get("nontrivial") and c.get("sig"):
+            try:
+                sig = json.loads(c["sig"])
+                per["%s/%s" % (sig[0], sig[1])] += 1
+            except Exception:
+                pass
+        k = (c.get("obs") or {}).get("kernel")
+        if k:
+            names.add(k)
+    return {
+        "nontrivial_cases_per_relation_and_kernel": dict(sorted(per.items())),
+        "kernel_names_and_aliases_used": sorted(names),
+        "tolerances_relative": {"batch": TOL_BATCH, "linearity": TOL_LIN, "recombination": TOL_RECOMB, "closed_forms": TOL_CLOSED},
+        "negative_control_two_pass_recombination": {"differs": counters.get("control:two_pass_recombination_differs", 0), "equal": counters.get("control:two_pass_recombination_equal", 0)},
+    }
